@@ -6,6 +6,7 @@ package session
 import (
 	"fmt"
 	"os"
+	"path/filepath"
 	"sort"
 	"strconv"
 	"strings"
@@ -23,6 +24,7 @@ import (
 )
 
 type simCfg struct {
+	richID    bool // SessionID with SubID / LocationID / Qualifier
 	begin     string
 	initiator bool
 	chunk     int
@@ -52,6 +54,7 @@ func genSimCfg(t *rapid.T) simCfg {
 }
 
 type sim struct {
+	rigCfg         rig.Config
 	t              vk.TB
 	c              *stats.Collector
 	cfg            simCfg
@@ -101,6 +104,11 @@ func drawExtras(t *rapid.T, c *stats.Collector, cfg *simCfg) {
 		cfg.settings[config.EnableLastMsgSeqNumProcessed] = "Y"
 		c.Class("setting:EnableLastMsgSeqNumProcessed")
 	}
+	if rapid.IntRange(0, 2).Draw(t, "extra-rich-identity") == 0 {
+		// optional identity fields: stamped on every outbound header and part of the store key
+		cfg.richID = true
+		c.Class("setting:identity-with-optional-fields")
+	}
 	if p := rapid.SampledFrom([]string{"", "", "", "SECONDS", "MICROS", "NANOS"}).Draw(t, "extra-timestampprecision"); p != "" {
 		cfg.settings[config.TimeStampPrecision] = p
 		c.Class("setting:TimeStampPrecision")
@@ -110,10 +118,21 @@ func drawExtras(t *rapid.T, c *stats.Collector, cfg *simCfg) {
 func newSim(t vk.TB, c *stats.Collector, cfg simCfg) *sim {
 	s := &sim{t: t, c: c, cfg: cfg}
 	id := quickfix.SessionID{BeginString: cfg.begin, SenderCompID: "ENG", TargetCompID: "PEER"}
+	if cfg.richID {
+		id.SenderSubID, id.SenderLocationID, id.TargetSubID, id.Qualifier = "DESK7", "NY", "GW", "q1"
+	}
 	var factory quickfix.MessageStoreFactory
-	if cfg.store == "file" {
+	switch cfg.store {
+	case "file":
 		s.dir = vk.Scratch("sess-")
 		factory = storekit.FileFactory(s.dir, false, id)
+	case "sql":
+		s.dir = vk.Scratch("sess-")
+		db := filepath.Join(s.dir, "s.db")
+		if err := storekit.CreateSQLite(db); err != nil {
+			t.Fatalf("harness: %v", err)
+		}
+		factory = storekit.SQLFactory("sqlite3", db, id)
 	}
 	// SendingTime comes from the real clock when a frame is built; frames may wait in the link
 	// queue and the machine may stall, so the latency window is made irrelevant here (C06, which
@@ -125,13 +144,27 @@ func newSim(t vk.TB, c *stats.Collector, cfg simCfg) *sim {
 	if cfg.chunk > 0 {
 		set[config.ResendRequestChunkSize] = strconv.Itoa(cfg.chunk)
 	}
-	r, err := rig.New(rig.Config{ID: id, Initiator: cfg.initiator, Settings: set, Factory: factory, HeartBt: cfg.hb})
+	s.rigCfg = rig.Config{ID: id, Initiator: cfg.initiator, Settings: set, Factory: factory, HeartBt: cfg.hb}
+	r, err := rig.New(s.rigCfg)
 	if err != nil {
 		t.Fatalf("harness: cannot build session %s: %v", cfg, err)
 	}
 	s.r = r
 	s.p = peer.New(cfg.begin, "PEER", "ENG")
 	return s
+}
+
+// restart discards the engine and builds a new one on the same persistent store (file / sql):
+// what a process restart does. The link is gone with the old process.
+func (s *sim) restart() {
+	s.r.Close()
+	r, err := rig.New(s.rigCfg)
+	if err != nil {
+		s.t.Fatalf("harness: cannot rebuild session %s: %v", s.cfg, err)
+	}
+	s.r = r
+	s.link, s.pendingReplays = nil, nil
+	s.logf("RESTART on the %s store (next out %d, next in %d)", s.cfg.store, s.r.S(), s.r.T())
 }
 
 func (s *sim) close() {
